@@ -399,6 +399,77 @@ def e2e(ctx, rule="wiener upper", mode="predefined", arg="BETA", db=3, stable=("
                 ctx.prove("repeated point inside one call gives the same average", ctx.all([ctx.eq(avg1[k, j], avg1[k0, j]) for j in range(ne)]))
 
 
+def backend_rows(ctx, stable, els, elements, key, und_row):
+    """what the backend stub delivers for the point `key`, by composition set: fractions and (p, e) mobility rows in
+    the element order of therm.elements (u-fraction weighted), -1 rows for phases without mobility model"""
+    sub = [el for el in elements if el not in interstitials]
+    raw = [ctx.uf("NP_%d%s" % (i, ph), *key, rng=(0.1, 1.0)) for i, ph in enumerate(stable)]
+    tot = sum(raw)
+    f0 = [r / tot for r in raw]
+    rows = []
+    for i, ph in enumerate(stable):
+        X = {el: ctx.uf("X_%d%s_%s" % (i, ph, el), *key, rng=(0.1, 1.0)) for el in els}
+        usum = functools.reduce(operator.add, [X[el] for el in sub])
+        if not und_row[i]:
+            rows.append([ctx.uf("MOB_%d%s_%s" % (i, ph, el), *key, rng=(0.2, 3.0)) * (X[el] / usum) for el in elements])
+        else:
+            rows.append([ctx.const(-1.0) for el in elements])
+    return rows, f0
+
+
+def seq(ctx, A=("wiener upper", "none", None, 1), B=("wiener upper", "exclude", ["GAMMA"], 1), db=3, stable=("GAMMA", "ALPHA"),
+        elements=("NI", "AL"), x=(0.3,), T=900.0):
+    """one HashTable with caching on, the same point evaluated with parameter set A, then B, then A again: every answer
+    equals the answer of a cold cache for the same parameters (so the third equals the first), the cached entry of the
+    point still holds the backend's arrays after every evaluation, and computeMobility on the table reports them"""
+    therm = mk_therm(DB[:db], elements)
+    log = []
+    has_model, mob_from_cs, els = mk_backend(ctx, therm, stable, log, True)
+    therm.mobCallables = {ph: ({} if has_model[ph] else None) for ph in therm.phases}
+    und_row = [not bool(has_model[ph]) for ph in stable]
+    ne = len(elements); p = len(stable)
+    key = list(x) + [T]
+    xin = x[0] if ne == 2 else list(x)
+    mk = lambda q: HomogenizationParameters(q[0], labyrinthFactor=q[3], postProcessFunction=q[1], postProcessArgs=q[2])
+    hot = DP.HashTable(); hot.enableCaching(True)
+    M0, f0 = backend_rows(ctx, stable, els, elements, key, und_row)
+
+    def cached_ok(tag):
+        ent = list(hot.cachedData.values())
+        ctx.observe("cache entries after " + tag, len(ent))
+        if len(ent) != 1:
+            return
+        md = ent[0]
+        ctx.prove("cached fractions of the point are the backend's after " + tag, ctx.all([ctx.eq(md.phase_fractions[i], f0[i]) for i in range(p)]))
+        ctx.prove("cached mobilities of the point are the backend's after " + tag,
+                  ctx.all([ctx.eq(md.mobility[i, j], M0[i][j]) for i in range(p) for j in range(ne)]))
+
+    saved = DP.mobility_from_composition_set
+    DP.mobility_from_composition_set = mob_from_cs
+    try:
+        ev = lambda q, ht: [np.reshape(r, (ne,)) for r in HP.computeHomogenizationFunction(therm, xin, T, mk(q), ht)]
+        r1 = ev(A, hot); cached_ok("the first evaluation (A)")
+        r2 = ev(B, hot); cached_ok("the second evaluation (B)")
+        r3 = ev(A, hot); cached_ok("the third evaluation (A again)")
+        md = DP.computeMobility(therm, xin, T, hot)
+        cold = []
+        for q in (A, B):
+            ht = DP.HashTable(); ht.enableCaching(True)
+            cold.append(ev(q, ht))
+    finally:
+        DP.mobility_from_composition_set = saved
+    ctx.observe("r1", r1[0]); ctx.observe("r2", r2[0]); ctx.observe("r3", r3[0])
+    same = lambda a, b: ctx.all([ctx.eq(a[0][j], b[0][j]) for j in range(ne)] + [ctx.eq(a[1][j], b[1][j]) for j in range(ne)])
+    ctx.prove("A, B, A on one cache: the third answer equals the first", same(r3, r1))
+    ctx.prove("A, B, A on one cache: the first answer equals the cold-cache answer for A", same(r1, cold[0]))
+    ctx.prove("A, B, A on one cache: the second answer equals the cold-cache answer for B", same(r2, cold[1]))
+    ctx.prove("A, B, A on one cache: the third answer equals the cold-cache answer for A", same(r3, cold[0]))
+    ctx.prove("computeMobility on the same table reports the backend's fractions", len(md.phase_fractions) == 1 and
+              ctx.all([ctx.eq(md.phase_fractions[0][i], f0[i]) for i in range(p)]))
+    ctx.prove("computeMobility on the same table reports the backend's mobilities", len(md.mobility) == 1 and
+              ctx.all([ctx.eq(md.mobility[0][i, j], M0[i][j]) for i in range(p) for j in range(ne)]))
+
+
 # ------------------------------------------------------------------------------------------------ registry
 
 _F1 = [HP.wienerUpper, HP.wienerLower, HP.hashinShtrikmanUpper, HP.hashinShtrikmanLower, HP._hashinShtrikmanGeneral, HP.labyrinth,
@@ -461,6 +532,22 @@ _E2E_T = [_e(r, "predefined", a, st, elements=els, cache=c, pts=x)
          [_e("lab", m, a, st, pts=x, labfac=n, elements=els) for m, a in (("predefined", "ALPHA"), ("exclude", ["GAMMA"]), ("none", None))
           for st, x, els in ((["BETA", "ALPHA"], _SAME2, ("NI", "AL")), (["ALPHA", "GAMMA", "BETA"], _T3x3, ("CR", "AL", "NI"))) for n in (2,)]
 
+_W = "wiener upper"
+_MODES = {"none": (_W, "none", None, 1), "exclude": (_W, "exclude", ["GAMMA"], 1), "predefined": (_W, "predefined", "ALPHA", 1), "majority": (_W, "majority", None, 1)}
+_SEQ_Q = [{"A": list(_MODES[a]), "B": list(_MODES[b]), "stable": ["GAMMA", "ALPHA"]}
+          for a, b in (("none", "exclude"), ("predefined", "none"), ("none", "majority"), ("exclude", "predefined"), ("majority", "exclude"), ("predefined", "majority"))] + \
+         [   # same functions, different arguments / labyrinth factor
+          {"A": [_W, "exclude", ["GAMMA"], 1], "B": [_W, "exclude", ["ALPHA"], 1], "stable": ["GAMMA", "ALPHA"]},
+          {"A": [_W, "exclude", ["GAMMA", "BETA"], 1], "B": [_W, "exclude", ["GAMMA"], 1], "stable": ["BETA", "GAMMA", "ALPHA"]},
+          {"A": [_W, "predefined", "ALPHA", 1], "B": [_W, "predefined", "GAMMA", 1], "stable": ["GAMMA", "ALPHA"]},
+          {"A": ["lab", "none", None, 2], "B": ["lab", "none", None, 1], "stable": ["GAMMA", "ALPHA"]},
+          {"A": ["lab", "exclude", ["ALPHA"], 1], "B": [_W, "majority", None, 1], "stable": ["ALPHA", "BETA"], "elements": ["FE", "C"]}]
+_SEQ_T = [{"A": list(_MODES[a]), "B": list(_MODES[b]), "stable": st, "elements": els, "x": x}
+          for a in _MODES for b in _MODES if a != b
+          for st, els, x in ((["GAMMA", "ALPHA"], ["NI", "AL"], [0.3]), (["ALPHA", "GAMMA", "BETA"], ["CR", "AL", "NI"], [0.3, 0.2]))] + \
+         [{"A": ["lab", "predefined", "GAMMA", 2], "B": ["lab", "predefined", "GAMMA", 1.5], "stable": ["BETA", "GAMMA"]},
+          {"A": [_W, "exclude", ["GAMMA", "ALPHA"], 1], "B": [_W, "exclude", ["ALPHA"], 1], "stable": ["ALPHA", "GAMMA", "GAMMA"]}]
+
 HARNESSES = [
     Harness("C17.bounds", bounds, functions=_F1, assumptions=_A1,
             bounds={"phases": "2-3 (4 phases: the two Hashin-Shtrikman orderings stay undecided at 300 s per obligation, so 4 is NOT claimed)",
@@ -507,4 +594,10 @@ HARNESSES = [
             bounds={"database phases": 3, "stable phases": "1-2 (3 thorough)", "elements": "2-3", "points per call": "1-2"},
             opts={"ob_timeout": 30.0, "fold_ite": True}, budget={"quick": 150.0, "thorough": 900.0},
             params={"quick": _E2E_Q, "thorough": _E2E_T}),
+    Harness("C17.seq", seq, functions=_F3 + [DP.computeMobility] + _F2 + _F1,
+            assumptions=_A2 + ["the point (x, T) is concrete; backend values are arbitrary (positive, < 1e6); undefined rows by a symbolic bit per phase name",
+                               "rules: upper Wiener and labyrinth (the other rules overflow on undefined entries, see C17.e2e)"],
+            stubs=["as C17.e2e"], bounds={"stable composition sets": "2 (3 thorough)", "elements": "2 (3 thorough)", "evaluations": "A, B, A on one table + cold tables"},
+            opts={"ob_timeout": 30.0, "fold_ite": True}, budget={"quick": 150.0, "thorough": 900.0},
+            params={"quick": _SEQ_Q, "thorough": _SEQ_T}),
 ]
